@@ -264,8 +264,9 @@ def handleOp (st : St) (toks : List String) : St × String :=
              | some h => b01 (fmtChangeset (toPlainState b' true) == fmtChangeset (toPlainState h true))
              | none => "na")
          else "na"
-       -- claimed only when none of the reverted blocks holds a storage-wiping revert
-       let region := revRegion s && !((s.b.reverts.drop (n - j')).any (fun blk => blk.any (fun e => e.2.wipe)))
+       -- claimed exactly in the region of `Props.C17.revert_j_equals_prefix_partial` (`Spec.Bundle.revertOk`:
+       -- every storage-wiping revert met lists no slot and meets an account without slot entries)
+       let region := revRegion s && revertOk s.b j
        let one (x : String) := if x == "na" || !region then x else "1"
        let d := fmtBundle b'
        (st, specCol st s!"ry={ry} rn={rn} lit={lit} {d}" s!"ry={one ry} rn={one rn} lit={lit} {d}")
